@@ -67,7 +67,7 @@ func (e *Engine) VerifyFunc(fn *ssa.Function, ct *FuncContract) (obls []*Obligat
 	inputs := c.inputSpecs(fn, args, st)
 	defer func() {
 		for _, o := range c.obls {
-			o.Inputs = inputs
+			o.Inputs = append(append([]InputSpec{}, inputs...), c.envVals...)
 			o.Pkg = fnPkgPath(fn)
 		}
 		obls = c.obls
